@@ -25,7 +25,9 @@ WALL_BUDGET = {"quick": 900, "thorough": 3 * 3600}
 
 
 def jobs(tier, seed):
-    return [(ident, tier, seed) for ident in structs.all_identities()]
+    out = [(ident, tier, seed) for ident in structs.all_identities()]
+    out += [('selftest:proxy', tier, seed)] + [(f'selftest:frames:{i}', tier, seed) for i in range(8)]
+    return out
 
 
 def source_shas():
@@ -101,10 +103,51 @@ def run_structure(ident, spec, res, checks=('fields', 'total'), spare=2):
     return d
 
 
+def run_selftest(ident, tier, seed, res):
+    from . import selftest
+    if ident == 'selftest:proxy':
+        bad = selftest.proxy_selftest(seed, 150 if tier == 'quick' else 1000)
+        res['obligations'] += 1
+        res['paths'] += 1
+        res['decisions'] += 1
+        if bad:
+            res['harness_errors'].append(f"proxy arithmetic differs from CPython: {bad[:2]}")
+        else:
+            res['discharged'] += 1
+            res['notes'].append("proxy self-test: random integer expressions agree with CPython")
+        return
+    part = int(ident.rsplit(":", 1)[1])
+    frames = selftest.recorded_frames()
+    lim = 5 if tier == 'quick' else 0
+    # each of the 8 jobs validates its own slice of the recorded frames
+    import random
+    rnd = random.Random(seed + part)
+    mine = frames[part::8]
+    selftest_frames = mine
+    orig = selftest.recorded_frames
+    selftest.recorded_frames = lambda: selftest_frames
+    try:
+        n, diffs = selftest.transform_validation(seed + part, lim)
+    finally:
+        selftest.recorded_frames = orig
+    res['obligations'] += 1
+    res.count('frames_validated', n)
+    if diffs:
+        res['harness_errors'].append("transform validation: engine and plain interpreter disagree: " + "; ".join(diffs[:3]))
+    else:
+        res['discharged'] += 1
+    res['paths'] += n
+    res['decisions'] += n
+
+
 def run_job(spec):
     ident, tier, seed = spec
     msgdrv.install()
     res = JobResult(ident)
+    if ident.startswith('selftest'):
+        run_selftest(ident, tier, seed, res)
+        res['samples'].append({'selftest': ident, 'frames_validated': res['counters'].get('frames_validated', 0)})
+        return res
     if not structs.wellformed(ident):
         res['notes'].append(f"{ident}: malformed definition; reported under C10")
         res.count('baddef')
